@@ -15,7 +15,8 @@ from typing import Optional, Any
 import elementpath.aliases as ta
 
 from elementpath.exceptions import ElementPathValueError
-from elementpath.datatypes import AnyAtomicType, AbstractDateTime, Base64Binary
+from elementpath.datatypes import AnyAtomicType, AbstractDateTime, Base64Binary, \
+    UntypedAtomic, AnyURI
 from elementpath.sequences import xlist
 from elementpath.helpers import split_function_test
 from elementpath.sequence_types import match_sequence_type, is_sequence_type_restriction
@@ -25,6 +26,31 @@ from elementpath.helpers import OPTIONAL_COMMENTS
 
 
 _TRUE_KEY, _FALSE_KEY = ('xs:boolean', True), ('xs:boolean', False)
+
+
+class _UntypedKey:
+    """
+    Dictionary key of an xs:untypedAtomic value: it hashes and compares as the string it
+    holds (so it meets the xs:string and xs:anyURI keys with the same characters) and never
+    equals anything else. UntypedAtomic.__eq__ cannot be used for that: it casts the value
+    to the type of the other operand and raises if the cast fails, which happens whenever a
+    number falls in the same hash bucket (hash('') == hash(0)).
+    """
+    __slots__ = ('key', 'value')
+
+    def __init__(self, key: UntypedAtomic) -> None:
+        self.key = key
+        self.value = str(key.value)
+
+    def __hash__(self) -> int:
+        return hash(self.value)
+
+    def __eq__(self, other: object) -> bool:
+        if isinstance(other, _UntypedKey):
+            return self.value == other.value
+        elif isinstance(other, AnyURI):
+            return self.value == other.value
+        return isinstance(other, str) and self.value == other
 
 
 def dict_key(key: Any) -> Any:
@@ -43,6 +69,8 @@ def dict_key(key: Any) -> Any:
         return 'no timezone', key  # op:same-key: both or neither value must have a timezone
     elif isinstance(key, Base64Binary):
         return 'xs:base64Binary', key  # not the same key as an xs:hexBinary with equal octets
+    elif isinstance(key, UntypedAtomic):
+        return _UntypedKey(key)  # a string key, never cast for a comparison
     return key
 
 
@@ -50,6 +78,8 @@ def atomic_key(key: Any) -> Any:
     """The atomic value stored under a dictionary key (inverse of dict_key)."""
     if key is None:
         return float('nan')
+    elif isinstance(key, _UntypedKey):
+        return key.key
     return key[1] if isinstance(key, tuple) else key
 
 
